@@ -10,6 +10,7 @@ The access state machine (UNKNOWN -> R/W/RW, add_write_property) is checked for 
 """
 from __future__ import annotations
 import itertools
+import re
 import z3
 from lark import Token
 
@@ -21,10 +22,13 @@ from pyvc import replay
 from spec import hexagon as hx, ir
 from . import irkit, tkit, emit, catalog
 from .common import WORKERS, tname, conc_vt, run_mutants
+from .c13 import M_X
 
 PROP = "C07"
 
 MUTANTS = [
+    {"name": "special_identifier_to_local_var: the effective address is a signed local", "file": "rzilcompiler/HexagonExtensions.py",
+     "old": 'return Variable("EA", ValueType(False, 32))', "new": 'return Variable("EA", ValueType(True, 32))'},
     {"name": "get_value_type_from_reg_type: predicates 32 bit", "file": "rzilcompiler/Transformer/ValueType.py",
      "old": '    elif reg_type == "P":\n        size = 8', "new": '    elif reg_type == "P":\n        size = 32'},
     {"name": "get_value_type_from_reg_type: pairs not doubled", "file": "rzilcompiler/Transformer/ValueType.py",
@@ -263,6 +267,41 @@ def gen_imm_mem(loader, check, replay_on=True):
             check.ob("imm#binding.fetched-by-its-letter-with-its-signedness", inst, pc, init == want and ir.vt(r) == (signed, 32), detail=f"{init!r}")
             ok = len(imms) == 1 and imms[0].fields["dest"] is r and imms[0].fields["src"] is r
             check.ob("imm#binding.local-initialised-from-the-fetched-value-first", inst, pc, ok)
+    # the effective address: the identifier EA names ONE 32-bit unsigned local per behaviour (first mention creates and registers it, later
+    # mentions return the same node); loop counters i / j / k likewise; any other unknown identifier stays a plain name (no operand is invented)
+    X = loader.load(M_X).globals["HexagonTransformerExtension"]
+    check.under_contract(loader, T.methods["identifier"], X.methods["is_special_id"], X.methods["special_identifier_to_local_var"])
+    for ident in ("EA", "i", "j", "k", "tmp", "EAx", "ea"):
+        inst = f"identifier {ident}"
+        check.instances_declared += 1
+
+        def setup(it):
+            return {"t": tkit.mk_transformer(it, stub_add_op=False, symbolic_count=False)}
+
+        def run(it, st, ident=ident):
+            a = it.call(tkit.method(it, st["t"], "identifier"), [[Token("IDENTIFIER", ident)]], {})
+            b = it.call(tkit.method(it, st["t"], "identifier"), [[Token("IDENTIFIER", ident)]], {})
+            return a, b
+        ex = explore(loader, setup, run)
+        check.absorb(ex, inst)
+        if ex.paths:
+            check.instances_generated += 1
+        for p in ex.paths:
+            pc = p.ctx.pc
+            check.ob("identifier#total", inst, pc, p.outcome == "return", detail="" if p.outcome == "return" else f"raises {p.value!r}")
+            if p.outcome != "return":
+                continue
+            a, b = p.value
+            if ident in ("EA", "i", "j", "k"):
+                h = p.state["t"].fields["il_ops_holder"]
+                ok = isinstance(a, Obj) and a.cls is irkit.C(loader, "Variable") and a.fields["name"] == ident and ir.vt(a) == (False, 32)
+                check.ob("identifier#binding.effective-address-and-loop-counters-are-32-bit-unsigned-locals", inst, pc, ok, detail=f"{a!r}",
+                         replay=("c07.special_id", lambda mdl, ident=ident: {"ident": ident}) if replay_on else None)
+                check.ob("identifier#binding.one-local-per-behaviour (registered, later mentions return it)", inst, pc,
+                         b is a and h.fields["read_ops"].get(ident) is a, detail=f"second mention {b!r}",
+                         replay=("c07.special_id", lambda mdl, ident=ident: {"ident": ident}) if replay_on else None)
+            else:
+                check.ob("identifier#binding.unknown-identifier-stays-a-name", inst, pc, a == ident and b == ident, detail=f"{a!r}")
     # loads: width and signedness of the access type; the signedness drives the widening of the loaded value
     for w in (8, 16, 32, 64):
         for s_ in ("s", "u"):
@@ -370,6 +409,21 @@ def replay_explicit(a):
     want = f"const HexOp {var}_op = EXPLICIT2OP({exp['number']}, {exp['class']}, {exp['new']});"
     bad = init.split("\n")[0] != want or r.value_type.bit_width != exp["width"]
     return bad, f"{a['text']}: declared {init.splitlines()[0]!r} typed {r.value_type}; expected {want!r} at {exp['width']} bit"
+
+
+@replay.register("c07.special_id")
+def replay_special_id(a):
+    c = irkit.real_compiler()
+    ident = a["ident"]
+    if ident == "EA":
+        txt = c.compile_c_stmt("{ EA = RsV; RdV = mem_load_u8(EA); ReV = mem_load_s16(EA); }")
+        decl = [l for l in txt.splitlines() if l.startswith("// Declare:")]
+        sets = re.findall(r'SETL\("EA", (.*)\);', txt)
+        bad = decl.count("// Declare: ut32 EA;") != 1 or not sets or "CAST(32, IL_FALSE" not in sets[0]
+        return bad, f"{{ EA = RsV; ... }}: declarations {decl}; EA is set from {sets}"
+    txt = c.compile_c_stmt("{ for (%s = 0; %s < 2; %s++) { RdV = RdV + %s; } }" % ((ident,) * 4))
+    decl = [l for l in txt.splitlines() if l.startswith("// Declare:") and f" {ident};" in l]
+    return decl != [f"// Declare: ut32 {ident};"], f"loop counter {ident}: declarations {decl}"
 
 
 def gen_task(loader, check, what, replay_on=True, **kw):
